@@ -79,6 +79,15 @@ Definition fastmatch (tol2 min_weight : Q) (min_match : Z) (zero a b : vec) (pts
     end
   end.
 
+(* float64 elevations: a NaN compares false with everything, so `elevation >= min_weight` drops it like a weak peak.
+   fastmatch_f is fastmatch on elevations that may be NaN; the weight substituted for a NaN is irrelevant
+   (Proofs/WeakP.v: fastmatch_ignores_weak_weights) as long as it is below min_weight. *)
+Inductive felev := ENaN | EVal (q : Q).
+Definition felev_weight (min_weight : Q) (e : felev) : Q := match e with EVal q => q | ENaN => min_weight - 1 end.
+Definition fastmatch_f (tol2 min_weight : Q) (min_match : Z) (zero a b : vec) (pts : list (felev * vec)) : fm_result :=
+  fastmatch tol2 min_weight min_match zero a b
+    (map (fun ep : felev * vec => {| k_w := felev_weight min_weight (fst ep); k_p := snd ep |}) pts).
+
 (* printing *)
 Definition mout (m : list (option (Z * Z))) : list (list Z) :=
   map (fun o => match o with Some (i, j) => [1%Z; i; j] | None => [0%Z; 0%Z; 0%Z] end) m.
